@@ -51,7 +51,7 @@ func checkC10(r *Run) {
 		"Rversion.MSize on every path is either the value just given to SetMSize or uint32(ch.MSize()) (so it is min(proposal, own) and equals the channel's msize); Tversion.MSize ≡ uint32(ch.MSize())",
 		"client.msize is read from the channel after a successful negotiation",
 		"SetMSize/newChannel keep len(rdbuf) == msize on every path; SetMSize's argument is non-negative at every call site")
-	r.NotDecided = append(r.NotDecided, "sizes of frames after the handshake as values (C02/C03 decide the enforcement points)", "the version-string policy")
+	r.NotDecided = append(r.NotDecided, "sizes of frames after the handshake as values (the enforcement points — write-side partition on msgmsize vs msize, read-side overflow test against len(rdbuf) — are decided by the rules shared with C02/C03)", "the version-string policy")
 
 	sn := p.Fn("p9p:servernegotiate")
 	cn := p.Fn("p9p:clientnegotiate")
@@ -135,6 +135,21 @@ func checkC10(r *Run) {
 			}
 		}
 		r.Check(ok, "negotiate-first", "CSession: transport started only after successful clientnegotiate", nt.Pos(), "requests can be sent before/without version negotiation")
+	}
+
+	// (6) "from then on neither end emits a frame longer than the agreed msize while each still accepts frames of
+	// exactly that size": the enforcement points themselves (rules shared with C02 and C03)
+	if wf, mt, smsg := p.Fn("p9p:(*channel).WriteFcall"), p.Fn("p9p:(*channel).maybeTruncate"), p.Fn("p9p:sendmsg"); wf != nil && mt != nil && smsg != nil {
+		c02WriteOrder(r, wf)
+		c02Truncate(r, mt)
+	} else {
+		r.Undecided("anchor", "WriteFcall/maybeTruncate/sendmsg", token.NoPos, "anchor function not found")
+	}
+	if rm, rf := p.Fn("p9p:readmsg"), p.Fn("p9p:(*channel).ReadFcall"); rm != nil && rf != nil {
+		c03Readmsg(r, rm)
+		c03ReadFcall(r, rf, rm)
+	} else {
+		r.Undecided("anchor", "readmsg/ReadFcall", token.NoPos, "anchor function not found")
 	}
 
 	// (7) SetMSize / newChannel keep len(rdbuf) == msize
